@@ -82,6 +82,14 @@ pub fn check_layout(spec: &MsgHeaderSpec, h: &MessageHeader) -> Check {
 pub fn check_header(spec: &MsgHeaderSpec) -> Check {
     let h = no_panic("decode_message_header", || decode(spec))??;
     check_layout(spec, &h)?;
+    // the same bytes delivered in short reads must decode to the same header
+    let bytes = spec.encode();
+    for step in crate::runner::CHUNK_STEPS {
+        let mut r = crate::runner::Chunked::new(&bytes, step);
+        let hc = no_panic("decode_message_header", || decode_message_header(&mut r))?
+            .map_err(|e| Fail::new("header-decode-error-short-reads", format!("reader delivering {} byte(s) per read: {:?}", step, e)))?;
+        ensure!(hc == h, "layout:depends-on-read-chunking", "header decoded from a reader delivering {} byte(s) per read differs from the slice decode", step);
+    }
 
     // type mapping
     let t = no_panic("message_type", || h.message_type())?;
